@@ -44,8 +44,12 @@ import (
 // Chapter is the logical content of an XHTML content document.
 type Chapter struct {
 	Title   string   `json:"title,omitempty"`   // <title>; "" writes an ordinary fixed title (EPUB33 6.1: title is required in XHTML content documents)
-	Heading string   `json:"heading,omitempty"` // <h1>
+	Heading string   `json:"heading,omitempty"` // <h1> (or <hN> with HeadingLevel N)
 	Paras   []string `json:"paras,omitempty"`   // <p> each
+	// HeadingLevel selects h1..h6 for Heading (0 = 1).
+	HeadingLevel int `json:"heading_level,omitempty"`
+	// Body is well-formed XHTML flow content (lists, tables, ...) written verbatim after the paragraphs.
+	Body string `json:"body,omitempty"`
 }
 
 // Texts returns the body text pieces in document order.
@@ -377,11 +381,16 @@ func (c Chapter) XHTML(version string) []byte {
 	}
 	fmt.Fprintf(&sb, `<html xmlns="%s" xml:lang="en">`+"\n<head><title>%s</title></head>\n<body>\n", nsXHTML, esc(title))
 	if c.Heading != "" {
-		fmt.Fprintf(&sb, "<h1>%s</h1>\n", esc(c.Heading))
+		lvl := c.HeadingLevel
+		if lvl < 1 || lvl > 6 {
+			lvl = 1
+		}
+		fmt.Fprintf(&sb, "<h%d>%s</h%d>\n", lvl, esc(c.Heading), lvl)
 	}
 	for _, p := range c.Paras {
 		fmt.Fprintf(&sb, "<p>%s</p>\n", esc(p))
 	}
+	sb.WriteString(c.Body)
 	sb.WriteString("</body>\n</html>\n")
 	return []byte(sb.String())
 }
